@@ -350,7 +350,7 @@ def model_request(case):
 # --------------------------------------------------------------------------- generators
 class Gen:
     def __init__(self, rng, unit=1, max_depth=3, raise_p=0.0, via_p=0.0, stop_p=0.03, sleep_p=0.1, cancel_p=0.15,
-                 tmax=12, ctl_p=0.0):
+                 tmax=12, ctl_p=0.0, ret_p=0.0):
         self.rng = rng
         self.unit = unit
         self.next_id = 1
@@ -362,6 +362,7 @@ class Gen:
         self.cancel_p = cancel_p
         self.tmax = tmax
         self.ctl_p = ctl_p   # re-entrant advance_to/advance_by/start from inside actions
+        self.ret_p = ret_p   # the action returns the handle of one of the children it scheduled
 
     def t_rel(self):
         r = self.rng.random()
@@ -406,7 +407,11 @@ class Gen:
         raise_ = None
         if rng.random() < self.raise_p:
             raise_ = f"e{nid}"
-        return {"id": nid, "steps": steps, "raise": raise_}
+        node = {"id": nid, "steps": steps, "raise": raise_}
+        kids = [st[4]["id"] for st in steps if st[0] == "sched"]
+        if kids and rng.random() < self.ret_p:
+            node["ret"] = rng.choice(kids)
+        return node
 
 
 def action_ids(node):
@@ -684,3 +689,11 @@ def periodic_property_oracle(case, out):
                     return (f"periodic action {pid} (period {t['p']}, scheduled at {t['t0']}, never disposed, never raised) was invoked "
                             f"{t['n']} times until {T}, expected {exp}")
     return None
+
+
+def ret_ok(node):
+    """a node may only return the handle of a child it schedules itself (shrinking must keep cases well-formed)"""
+    kids = [st[4] for st in node["steps"] if st[0] == "sched"]
+    if node.get("ret") is not None and node["ret"] not in [k["id"] for k in kids]:
+        return False
+    return all(ret_ok(k) for k in kids)
